@@ -13,8 +13,20 @@
 #include <stdlib.h>
 
 static ssize_t harness_read(int fd, void *buf, size_t n);
+/* the k-th realloc from now on fails once (op RF:<k>): the growth step meets an out-of-memory condition */
+static int fail_realloc;
+static void *harness_realloc(void *p, size_t n)
+{
+    if (fail_realloc > 0 && --fail_realloc == 0) {
+        errno = ENOMEM;
+        return NULL;
+    }
+    return realloc(p, n);
+}
 #define read harness_read
+#define realloc harness_realloc
 #include "src/pdsh/cbuf.c"
+#undef realloc
 #undef read
 
 void lsd_fatal_error(char *file, int line, char *mesg)
@@ -120,6 +132,7 @@ int main(void)
         mn = atoi(tok);
         tok = strtok_r(NULL, " \n", &save);
         mx = tok ? atoi(tok) : 0;
+        fail_realloc = 0;
         cb = cbuf_create(mn, mx);
         if (!cb) { printf("NOCREATE\n"); fflush(stdout); continue; }
         printf("C");
@@ -172,6 +185,9 @@ int main(void)
                 free(b);
             } else if (!strcmp(tok, "o")) {
                 printf("%d", cbuf_opt_set(cb, CBUF_OPT_OVERWRITE, atoi(a1) == 0 ? CBUF_NO_DROP : atoi(a1) == 1 ? CBUF_WRAP_ONCE : CBUF_WRAP_MANY));
+            } else if (!strcmp(tok, "RF")) {
+                fail_realloc = atoi(a1);
+                printf("0");
             } else if (!strcmp(tok, "fl")) {
                 cbuf_flush(cb);
                 printf("0");
